@@ -192,6 +192,9 @@ func (n *GeneratorInterceptor) loop(rtcpWriter interceptor.RTCPWriter) {
 					}
 
 					if count == 0 {
+						// nothing to request: still forget the counts of numbers that are no longer missing
+						n.pruneNackCounts(ssrc, missing)
+
 						continue
 					}
 
@@ -208,16 +211,7 @@ func (n *GeneratorInterceptor) loop(rtcpWriter interceptor.RTCPWriter) {
 					}
 				}
 
-				for nackSeq := range n.nackCountLogs[ssrc] {
-					if !slices.Contains(missing, nackSeq) {
-						delete(n.nackCountLogs[ssrc], nackSeq)
-					}
-				}
-
-				// clean up the count log for the ssrc if it's empty
-				if len(n.nackCountLogs[ssrc]) == 0 {
-					delete(n.nackCountLogs, ssrc)
-				}
+				n.pruneNackCounts(ssrc, missing)
 
 				toSend = append(toSend, nack)
 			}
@@ -233,6 +227,21 @@ func (n *GeneratorInterceptor) loop(rtcpWriter interceptor.RTCPWriter) {
 		case <-n.close:
 			return
 		}
+	}
+}
+
+// pruneNackCounts drops the NACK counts of sequence numbers that are not missing any more.
+// The caller holds receiveLogsMu.
+func (n *GeneratorInterceptor) pruneNackCounts(ssrc uint32, missing []uint16) {
+	for nackSeq := range n.nackCountLogs[ssrc] {
+		if !slices.Contains(missing, nackSeq) {
+			delete(n.nackCountLogs[ssrc], nackSeq)
+		}
+	}
+
+	// clean up the count log for the ssrc if it's empty
+	if len(n.nackCountLogs[ssrc]) == 0 {
+		delete(n.nackCountLogs, ssrc)
 	}
 }
 
